@@ -52,6 +52,12 @@ pub fn freelist_of(s: &str) -> Freelist {
   }
 }
 
+fn flatten_either(e: rarena_allocator::either::Either<std::io::Error, std::io::Error>) -> std::io::Error {
+  match e {
+    rarena_allocator::either::Either::Left(e) | rarena_allocator::either::Either::Right(e) => e,
+  }
+}
+
 pub fn options_of(cfg: &Value) -> Options {
   let mut o = Options::new()
     .with_capacity(cfg["cap"].as_u64().unwrap() as u32)
@@ -90,12 +96,15 @@ pub fn build<A: ArenaX>(
       .map_err(|e| format!("{:?}", e.kind())),
     "file" => {
       let p = scratch_path(workdir, "seq");
+      // "pb": the *_with_path_builder constructors instead of the plain ones
+      let o = opts.with_create_new(true).with_read(true).with_write(true);
       let r = unsafe {
-        opts
-          .with_create_new(true)
-          .with_read(true)
-          .with_write(true)
-          .map_mut::<A, _>(&p)
+        if cfg["pb"].as_bool().unwrap_or(false) {
+          let p2 = p.clone();
+          o.map_mut_with_path_builder::<A, _, std::io::Error>(move || Ok(p2)).map_err(flatten_either)
+        } else {
+          o.map_mut::<A, _>(&p)
+        }
       };
       match r {
         Ok(a) => Ok((a, Some(p))),
@@ -423,7 +432,9 @@ impl<A: ArenaX> Inst<A> {
         Err(e) => json!({"k": err_kind(&e)}),
       },
       "setmin" => {
-        a.set_minimum_segment_size(op["v"].as_u64().unwrap() as u32);
+        // "vx": the exact value when it does not fit TLC's integers ("v" is then its saturation)
+        let v = op.get("vx").and_then(|x| x.as_str()).and_then(|x| x.parse::<u64>().ok()).unwrap_or_else(|| op["v"].as_u64().unwrap());
+        a.set_minimum_segment_size(v as u32);
         json!({"k": "ok"})
       }
       "incdisc" => {
@@ -503,8 +514,16 @@ impl<A: ArenaX> Inst<A> {
           o = o.with_freelist(freelist_of(kd));
         }
         let variant = op["variant"].as_str().unwrap();
+        let pb = cfg["pb"].as_bool().unwrap_or(false);
         let r = unsafe {
+          let p2 = path.clone();
+          let pbf = move || -> Result<std::path::PathBuf, std::io::Error> { Ok(p2) };
           match variant {
+            "map_mut" if pb => o.with_read(true).with_write(true).with_create(op["create"].as_bool().unwrap_or(false))
+              .map_mut_with_path_builder::<A, _, std::io::Error>(pbf).map_err(flatten_either),
+            "map_copy" if pb => o.with_read(true).with_write(true).map_copy_with_path_builder::<A, _, std::io::Error>(pbf).map_err(flatten_either),
+            "map" if pb => o.with_read(true).map_with_path_builder::<A, _, std::io::Error>(pbf).map_err(flatten_either),
+            "map_copy_ro" if pb => o.with_read(true).map_copy_read_only_with_path_builder::<A, _, std::io::Error>(pbf).map_err(flatten_either),
             "map_mut" => o.with_read(true).with_write(true).with_create(op["create"].as_bool().unwrap_or(false)).map_mut::<A, _>(&path),
             "map_copy" => o.with_read(true).with_write(true).map_copy::<A, _>(&path),
             "map" => o.with_read(true).map::<A, _>(&path),
